@@ -66,20 +66,20 @@ def scripts(tier):
     F = lambda a: dict(op="find", a=a, b=0)
     S = lambda a, b: dict(op="same", a=a, b=b)
     setups = [[], [U(2, 3)], [U(2, 3), U(1, 2)], [U(0, 1)]]
-    helds = [U(2, 3), U(1, 3), U(0, 3), F(3), S(1, 3), S(0, 3)]
+    helds = [U(2, 3), U(1, 3), U(0, 3), F(3), S(1, 3), S(0, 3), S(3, 2), S(2, 3), S(3, 1)]
     menu = [U(1, 2), U(0, 1), U(0, 2), F(3), F(2), S(2, 3)]
     durings = [[m] for m in menu] + [list(p) for p in itertools.product(menu, repeat=2)]
     out = []
     for st in setups:
         for h in helds:
-            for g in (30, 31, 32):
+            for g in (30, 31, 32, 35):
                 for d in durings:
                     out.append(dict(n=4, cap=2, setup=st, held=h, gate=g, during=d))
     # the model's counterexample (MC_ConcUF_A_strict) first
     first = dict(n=4, cap=2, setup=[], held=U(2, 3), gate=30, during=[U(1, 2), F(3)])
     if tier == "quick":
         random.Random(core.seed()).shuffle(out)
-        out = out[:500]
+        out = out[:700]
     return [first] + out
 
 
@@ -152,7 +152,7 @@ def conc_part(tier, V, cov):
                                                                      json.dumps([{k: v for k, v in e.items() if k != "th"} for e in events[start + 1: idx + 1]])[:700]),
                             dict(kind="cuf", scenario=b.get("kind"), script=b.get("script"), seed=sd, random=nrand, k=b.get("k"),
                                  ops=b["ops"], history=events[start + 1: idx + 1], code=code))
-    missing = [p for p in (30, 31, 32, 33, 34) if not points.get(str(p))]
+    missing = [p for p in (30, 31, 32, 33, 34, 35) if not points.get(str(p))]
     if missing:
         raise core.ToolError("vacuity: union-find schedule points never passed: %s (hooks not compiled in?)" % missing)
     if reached < len(scs) // 4:
